@@ -1393,6 +1393,9 @@ func (d *DescribeStatement) SQL() string {
 	if d == nil {
 		return ""
 	}
+	if d.Query != nil {
+		return "EXPLAIN " + stmtSQL(d.Query)
+	}
 	return "DESCRIBE " + nameSQL(d.TableName)
 }
 
